@@ -377,7 +377,11 @@ func (vc *VC) oblige(st *State, name, kind string, goal *Term, tags []string, sr
 	o := &Obligation{Name: full, Tags: tags, Kind: kind, PC: st.pc, Goal: goal, NAssume: len(vc.assumes), Taint: st.taint, Src: src, Fn: vc.fnName()}
 	vc.obls = append(vc.obls, o)
 	// once asserted, later code may rely on it (end-of-path obligations have no later code)
-	if kind != "loop-keep" && kind != "post" && kind != "unwind" && !recordedFindings[full] {
+	// ... unless it is a recorded finding, or a clause that only another property's check discharges: relying on it here
+	// would let a change that breaks it (and is reported there) cut off the paths on which this property's own clauses
+	// would have failed
+	otherOnly := curProp != "" && len(tags) > 0 && !containsStr(tags, curProp)
+	if kind != "loop-keep" && kind != "post" && kind != "unwind" && !recordedFindings[full] && !otherOnly {
 		vc.assumes = append(vc.assumes, Implies(st.pc, goal))
 	}
 }
